@@ -500,6 +500,9 @@ def build_instance_tree(
                         vmod_arg.value.modifications = [el_arg]
                         sym_mod.arguments.append(vmod_arg)
                     else:
+                        for attr_arg in el_arg.arguments:
+                            if attr_arg.scope is None:
+                                attr_arg.scope = arg.scope
                         sym_mod.arguments.extend(el_arg.arguments)
 
             if sym.class_modification:
@@ -559,6 +562,9 @@ def build_instance_tree(
                             vmod_arg.value.modifications = [el_arg]
                             sym_mod.arguments.append(vmod_arg)
                         else:
+                            for attr_arg in el_arg.arguments:
+                                if attr_arg.scope is None:
+                                    attr_arg.scope = arg.scope
                             sym_mod.arguments.extend(el_arg.arguments)
                 else:
                     arg.value.component = arg.value.component.child[0]
